@@ -79,6 +79,30 @@ class Spec:
         ops.append(Op("move", "B1", self._move(B1, False)))
         ops.append(Op("move", "B2", self._move(B2, False)))
         ops.append(Op("move_stationary", "B1", self._move(B1, True)))
+
+        def live_queries(st):
+            # the pure queries asked on the LIVE object (the invariant asks them on private copies): whatever they remember is
+            # part of the state from here on.  Only with the stored joints inside the limits: the queries clamp the stored vector in
+            # place without refreshing the reported pose, and they are not among the calls the statement lists.
+            a, m = st.arm, st.ref
+            tha = armlib.joint_state(a)
+            inside = bool(np.all(tha >= m.lo - 1e-12) and np.all(tha <= m.hi + 1e-12))   # (a fresh arm whose ranges exclude 0 is outside)
+            if inside and not (st.loose or st.unclamped):
+                with armlib.quiet():
+                    a.getJointTransforms()
+                    a.jacobian()
+                    a.jacobianBody()
+                    a.getEEPos()
+            if not inside:
+                st.unclamped = True     # (nothing was called: the pose on record is that of the stored, unclamped joint vector)
+            return st, {}
+        ops.append(Op("queries_on_live_object", None, live_queries))
+
+        def nudged(m):      # the base where it stands, its position stretched by 3e-6 (a move by micrometres, every matrix
+            B = m.base.copy()   # entry within 1e-5 relative of the old one)
+            B[:3, 3] = B[:3, 3] * (1.0 + 3e-6)
+            return B
+        ops.append(Op("move", "micrometres", self._move(nudged, False)))
         ops.append(Op("setArbitraryHome", {"offset": "X", "theta": "g1"}, self._tool(X, "g1")))
         ops.append(Op("setArbitraryHome", {"offset": "X", "theta": None}, self._tool(X, None)))
         ops.append(Op("setArbitraryHome", {"offset": "X2", "theta": "over"}, self._tool(X2, "over")))
@@ -141,9 +165,10 @@ class Spec:
             return st, obs
         return f
 
-    def _move(self, B, stationary):
+    def _move(self, B_arg, stationary):
         def f(st):
             a, m = st.arm, st.ref
+            B = B_arg(m) if callable(B_arg) else B_arg
             before = m.fk(m.clamp(m.th))
             with armlib.scripted_random(FR), armlib.quiet():
                 a.move(self.tm(B.copy()), stationary)
